@@ -53,6 +53,7 @@ func Pool(pad int) []PoolItem {
 		{"arr21", Content{Props: props("v", []interface{}{2, 1}), Refs: no}},
 		{"psa", Content{Props: props(), Refs: props("p", "e2", "q", []interface{}{"e2"})}},
 		{"pas", Content{Props: props(), Refs: props("p", []interface{}{"e2"}, "q", "e2")}},
+		{"r223", Content{Props: props(), Refs: props("p", []interface{}{"e2", "e2", "e3"})}},
 		{"nest2", Content{Props: props("v", map[string]interface{}{"id": "n9", "props": map[string]interface{}{"w": 2}, "refs": map[string]interface{}{}}), Refs: no}},
 	}
 	return items
